@@ -96,7 +96,8 @@ class Actor:
       own      nothing: own Problem, own SolverParameters                              (default)
       params   one SolverParameters object handed to every solver
       default  no parameters argument at all (the Solver's default argument)
-      problem  one Problem object handed to every solver (own parameters)"""
+      problem  one Problem object handed to every solver (own parameters)
+      listener one console listener object attached to every solver (own Problem, own parameters)"""
 
     def __init__(self, spec, hook=None, env=None):
         self.spec = spec
@@ -124,6 +125,12 @@ class Actor:
                     self.s = Solver(self.p)
                 else:
                     self.s = Solver(self.p, _params(self.spec))
+                if self.share == "listener":
+                    # one shipped console listener object attached to every solver of the execution
+                    if "listener" not in self.env:
+                        from iOpt.method.listener import ConsoleFullOutputListener
+                        self.env["listener"] = ConsoleFullOutputListener(mode=self.spec.get("console", "result"))
+                    self.s.AddListener(self.env["listener"])
             elif op == "i":
                 self.s.DoGlobalIteration(1)
             elif op == "I":
@@ -453,6 +460,12 @@ def run(ctx):
     for N in (1, 2):
         sp = [dict(f="neg", N=N, box="B1", r=2.0, eps=0.05, limit=8), dict(f="quad0", N=N, box="B1", r=3.0, eps=0.05, limit=8)]
         tasks += [dict(specs=sp, ops=["c", "i", "i", "P", "i", "r"], first=None)]
+    # one console listener object attached to both solvers (boxes that do not contain each other's optimum)
+    for N in (1, 2):
+        for mode in ("result", "full"):
+            sp = [dict(f="quad0", N=N, box="B0", r=2.0, eps=0.05, limit=8, share="listener", console=mode),
+                  dict(f="neg", N=N, box="L:-1.0:0.25", r=3.0, eps=0.05, limit=8, share="listener", console=mode)]
+            tasks += [dict(specs=sp, ops=["c", "i", "S", "r"], first=None)]
     # two live solvers of different dimensions, both >= 2
     for dims in ((2, 3), (3, 2), (4, 2)):
         tasks += shared("own", dims, ("mono", "quad0"), ["c", "i", "i", "S", "r"])
